@@ -948,4 +948,43 @@ def R6_cross_checks(run):
     C08.R1_case_split(RuleProxy(run, 'R6'))
 
 
-RULES = [R1_constants, R2_step, R2b_rounding_primitives, R3_loop, R4_fee_manager_ports, R5_quotes, R6_cross_checks]
+def R3b_grid_steppers(run):
+    run.title("R3b", "the SDK's grid steppers floor towards minus infinity, as the program's tick-array search does for negative ticks: "
+                     "next = t - rem_euclid(t, s) + s; prev = t - s on the grid, t - rem_euclid(t, s) off it; array start = div_euclid(div_euclid(t, s), 88) * s * 88 "
+                     "(a truncating % or / is one spacing / one array off for negative unaligned indexes)")
+    from analysis.poly import poly, show_poly
+    K = run.sdk
+
+    def atom(t):
+        t = strip(t)
+        if t[0] == "param":
+            return {"tick_index": "t", "tick_spacing": "s"}.get(t[1], t[1])
+        if t[0] == "call" and t[1].rsplit("::", 1)[-1] in ("rem_euclid", "div_euclid") and len(t[2]) == 2:
+            inner = poly(t[2][0], atom)
+            return "%s(%s, %s)" % (t[1].rsplit("::", 1)[-1], show_poly(inner), show_poly(poly(t[2][1], atom)))
+        return show(t, True)
+
+    def rets(fn):
+        pv = prov_of(fn)
+        out = set()
+        for bi, bb in enumerate(fn.blocks):
+            if bb["t"]["k"] == "ret":
+                for l in leaves(pv.local(0, bi, len(bb["s"]))):
+                    out.add(show_poly(poly(l, atom)))
+        return out
+    R = "rem_euclid(t, s)"
+    table = (("get_next_initializable_tick_index", {show_poly({("t",): 1, (R,): -1, ("s",): 1})}),
+             ("get_prev_initializable_tick_index", {show_poly({("t",): 1, ("s",): -1}), show_poly({("t",): 1, (R,): -1})}),
+             ("get_tick_array_start_tick_index", {show_poly({tuple(sorted(["div_euclid(div_euclid(t, s), 88)", "s"])): 88})}))
+    for name, want in table:
+        fn = K.need_fn("math::tick::" + name)
+        run.touch(fn)
+        got = rets(fn)
+        run.check("R3b", "formula@" + name, got == want, "SDK %s returns %s, expected %s" % (name, sorted(got), sorted(want)), loc=fn.loc(), detail=" | ".join(sorted(want)))
+    p = K.need_fn("math::tick::get_prev_initializable_tick_index")
+    on_grid = [at for at in A.atoms(p) if at.cond() and at.cond()[0] in ("Eq", "Ne") and const_val(at.cond()[2]) == 0 and is_call(at.cond()[1], "rem_euclid")]
+    run.check("R3b", "prev-on-grid-test", len(on_grid) == 1, "SDK get_prev_initializable_tick_index no longer tests rem_euclid(t, s) == 0 to step a whole spacing from a grid tick", loc=p.loc(),
+              detail="rem_euclid(t, s) == 0 => t - s")
+
+
+RULES = [R1_constants, R2_step, R2b_rounding_primitives, R3_loop, R3b_grid_steppers, R4_fee_manager_ports, R5_quotes, R6_cross_checks]
